@@ -188,6 +188,9 @@ ensures
     _n = 0
     for _fc in (se, sn, sf, ap, f, va):
         _n += _fc.guard_rest('not read by any contract of unit SYNX: text pinned')
+    # oq3_lexer/src/unescape.rs (escape scanning behind validate_literal's callbacks; closures over FnMut): pinned as a whole
+    U.file('crates/oq3_lexer/src/unescape.rs').guard_file('escape scanning used by validate_literal (callbacks over FnMut): not verified; pinned as a whole')
+    _n += 1
     U.n_pinned = getattr(U, 'n_pinned', 0) + _n
     U.assumed_dep = ['LexedStr::new / errors_is_empty / text_range / to_input, TopEntryPoint::parse: contracts proved in units LEX, SHORT, PARSER, restated over a ghost view',
                      'rowan / text-size: TextRange::new asserts start <= end; TextSize::try_from(usize) fails iff the value exceeds u32',
